@@ -271,7 +271,22 @@ func c01Body(p c01Params) func() {
 		vrt.SetRetryBound(p.Retry)
 		bufferSlicePool.Reset()
 		var err error
-		if p.Level == "manager" {
+		if p.Level == "manager-exact" {
+			// one size class in a memory that is exactly as large as the class needs: the last slot ends at len(mem)
+			w.mem = make([]byte, bufferManagerHeaderSize+int(countBufferListMemSize(uint32(p.Slots), 8)))
+			pairs := []*SizePercentPair{{Size: 8, Percent: 100}}
+			if w.mgrs[0], err = createBufferManager(pairs, "", w.mem, 0); err != nil {
+				vrt.Failf("setup", "createBufferManager: %v", err)
+			}
+			if w.mgrs[1], err = mappingBufferManager("", w.mem, 0); err != nil {
+				vrt.Failf("setup", "mappingBufferManager: %v", err)
+			}
+			w.lists, w.mlists = w.mgrs[0].lists, w.mgrs[1].lists
+			l := w.lists[0]
+			if len(w.lists) != 1 || int(*l.cap) != p.Slots || int(l.bufferRegionOffsetInShm)+int(*l.cap)*int(slotSizeOf(l)) != len(w.mem) {
+				vrt.Failf("setup", "unexpected layout: %d classes, %d slots, region ends at %d of %d", len(w.lists), *l.cap, int(l.bufferRegionOffsetInShm)+int(*l.cap)*int(slotSizeOf(l)), len(w.mem))
+			}
+		} else if p.Level == "manager" {
 			// two size classes: 3 slots of 8 bytes and 2 slots of 16 bytes (260 bytes of "shared memory")
 			w.mem = make([]byte, 260)
 			pairs := []*SizePercentPair{{Size: 8, Percent: 50}, {Size: 16, Percent: 50}}
@@ -499,6 +514,11 @@ func c01Scenarios(thorough bool) (out []c01Params) {
 		// chains recycled through their shared-memory links against concurrent allocation of both kinds
 		for _, pr := range [][2]string{{"mc", "mc"}, {"mc", "ma"}, {"ac", "bo"}, {"mc", "bb"}} {
 			addM(pr[0], pr[1])
+		}
+		// exact-fit memory (the last slot ends where the mapping ends): the tail moves, every slot gets allocated once,
+		// chains that contain the last physical slot are recycled by their head - from either view
+		for _, progs := range [][]string{{"aoaaac"}, {"", "aoaaac"}, {"aoaaaooo"}, {"aoaac", "ao"}, {"aoaoaaac"}} {
+			out = append(out, c01Params{Slots: 4, Programs: progs, Retry: 3, Level: "manager-exact"})
 		}
 	}()
 	if !thorough {
